@@ -38,9 +38,13 @@ CHECKS["C15"] = {"category": "proof",
   "text": "All 72+ SafeDurationCast instantiations (8 units x 8 units, int64, plus int8/int16/int32/uint64 targets) and 13 SafeAddDuration instantiations are proved over their full domains to return exactly the mathematical value or raise std::out_of_range (never a wrapped or truncated value), and never to refuse a representable exact value. The date-time parts -> time_point arithmetic is attempted in the thorough tier; the grammar of ParseIsoUtc / duration parsing is not under contract yet.",
   "note": "ParseIsoUtc, ParseSecondFractions and the duration grammar (text layer, from_chars) are not covered; cvc5 int-blasting trusted",
   "technique": _T + "exact-or-out_of_range postconditions in __int128, VCs from CBMC decided by cvc5 --solve-bv-as-int"}
+CHECKS["C09"] = {"category": "proof",
+  "text": "WriteEscapedValue (the RFC 4180 quoting of one field) is proved: step contracts for both loops (stop exactly at DQUOTE/separator/LF/CR; each character appended once, DQUOTE doubled) and a modular function-level proof with loop contracts for every field length (unquoted only if no character needs quoting - arbitrary witness position; quoted = DQUOTE + verbatim prefix + one step per remaining character + DQUOTE). The readers' parsing and the write/read round trip are decided by BOUNDED native stand-ins (all documents up to length 8 over {a , DQUOTE CR LF}, both readers, sequential and by key, against an independent RFC 4180 parser) - listed under 'bounded', not counted as proved.",
+  "note": "CSV readers (ParseNextLine/UnescapeValue) are only under the bounded check; encodings/BOM of CSV streams reduce to C13; event-log string model",
+  "technique": _T + "step + loop contracts on the real WriteEscapedValue (R2, SAT); bounded native exhaustive stand-in for the readers"}
 _NR = "not reached yet in this round: the check is not built; see DESIGN.md §0 for the planned contracts"
 NOT_APPLICABLE = {
  "C08": "well-formedness and acceptance of JSON/XML text is decided inside RapidJSON and pugixml (third-party code outside /repo); no contract on /repo code can express it without a verified model of those libraries (DESIGN.md §4 C08)",
 }
-for _p in ["C01","C03","C05","C09","C13","C16","C17","C18","C19","C20"]:
+for _p in ["C01","C03","C05","C13","C16","C17","C18","C19","C20"]:
     NOT_APPLICABLE.setdefault(_p, _NR)
